@@ -11,9 +11,13 @@ DRIVER = "Driver/C23.lean"
 REQUIRED_THEOREMS = ["tx_cmd_then_bytes_then_stp", "tx_ready_iff_phy_accepted", "never_drive_when_dir"]
 RULE = ("two kinds of case: (utmi) the real UTMITranslator on a ULPI record, driven by a behavioural PHY (NXT "
         "acceptance delays, throttling, DIR-high episodes with RxCmds/receive packets between and during link "
-        "activity), a UTMI transmitter reacting to tx_ready, per-case op_mode and other control settings "
+        "activity; in three quarters of the cases 10-40 % of the transmit-command presentations are pre-empted by a "
+        "receive that starts - mostly with DIR and NXT rising together - in one of the cycles in which the command is "
+        "still waiting for NXT), a UTMI transmitter reacting to tx_ready, per-case op_mode and other control settings "
         "(register writes at start-up and at quiet moments); (tx) the real ULPITransmitTranslator alone under "
-        "unconstrained random inputs and packet-shaped inputs")
+        "unconstrained random inputs and packet-shaped inputs; monitor (utmi) cycle by cycle: tx_valid & tx_ready <=> the "
+        "PHY-side bus observer accepted a byte from the link in that cycle (NOPID command excepted), not judged after the "
+        "PHY interrupted a transmission it had accepted")
 ASSUMPTIONS = [
     "the PHY asserts NXT only in answer to a command/data byte it saw on the bus at the previous clock edge "
     "(tx_cmd_then_bytes_then_stp: first wait >= 1); tx_ready_iff_phy_accepted and never_drive_when_dir hold for "
@@ -47,7 +51,7 @@ def utmi_params(rng, k):
          "tx_rate": rng.choice([20, 60, 200, 1000]), "max_len": rng.choice([4, 12, 40]),
          "nxt_delay": rng.choice([0, 1, 3, 9]), "throttle": rng.choice([0, 10, 50, 85]),
          "rx_rate": rng.choice([0, 5, 20, 60]), "abort_rate": rng.choice([0, 0, 0, 15]),
-         "tx_gap_min": rng.choice([1, 1, 2, 6])}
+         "tx_gap_min": rng.choice([1, 1, 2, 6]), "pend_abort": rng.choice([0, 10, 25, 40])}
     ctrl0 = dict(U.DEFAULT_CTRL) if k % 3 == 0 else U.random_ctrl(rng)
     if k % 2 == 0:
         ctrl0["op_mode"] = rng.choice([0, 2, 2, 1, 3])
@@ -101,6 +105,7 @@ def monitor_utmi(rows_in, rows_out, tags):
     utmi = []
     cur = None
     stall = 0
+    intr = False      # the PHY raised DIR in the middle of the running transmission (theorem hypothesis not met)
     for t, (ri, ro) in enumerate(zip(rows_in, rows_out)):
         dir_, nxt = ri[I["dir"]], ri[I["nxt"]]
         bus, stp = ro[O["data_o"]], ro[O["stp"]]
@@ -112,6 +117,29 @@ def monitor_utmi(rows_in, rows_out, tags):
         extra.append([U.bus_code(obs.state), obs.regs[4], obs.regs[10], obs.other_writes, len(obs.writes)])
         if ro[O["tx_ready"]] and not nxt and not fails:
             fails.append({"cycle": t, "sig": "tx-ready-without-nxt", "what": "tx_ready high while NXT is low"})
+        # "a UTMI byte is reported accepted exactly when the PHY accepted it", cycle by cycle.  The oracle for "the
+        # PHY accepted a byte in this cycle" is the bus observer's own bookkeeping (NXT high, DIR low, a transmit
+        # command on the pins while it was idle / any byte but the STP one while it was in a transmit).  Not judged
+        # once the PHY has raised DIR in the middle of a transmission it had accepted (until tx_valid falls).
+        if dir_ and was_tx:
+            intr = True
+        if not ri[I["tx_valid"]]:
+            intr = False
+        pc = obs.cur
+        acc_cmd = pc is not None and pc["start"] == t and not pc["bytes"]
+        acc_byte = pc is not None and bool(pc["bytes"]) and pc["bytes"][-1][0] == t
+        if not intr and not fails:
+            rdy = bool(ri[I["tx_valid"]] and ro[O["tx_ready"]])
+            want = acc_byte or (acc_cmd and ri[I["op_mode"]] != 2)
+            if rdy and not want:
+                fails.append({"cycle": t, "sig": "tx-ready-but-phy-accepted-nothing", "what":
+                              "UTMI byte 0x%02x reported accepted (tx_ready) in a cycle in which the PHY accepted "
+                              "nothing from the link (DIR=%d NXT=%d, PHY %s before this cycle)"
+                              % (ri[I["tx_data"]], dir_, nxt, "in a transmit" if was_tx else "not in a transmit")})
+            elif want and not rdy:
+                fails.append({"cycle": t, "sig": "phy-accepted-without-tx-ready", "what":
+                              "the PHY accepted 0x%02x from the link but no UTMI byte was reported accepted "
+                              "(tx_valid=%d tx_ready=%d)" % (bus, ri[I["tx_valid"]], ro[O["tx_ready"]])})
         # liveness watchdog: a transmission must reach the PHY (bounded NXT delays, short register writes)
         if ri[I["tx_valid"]] and not ro[O["tx_ready"]] and not dir_:
             stall += 1
